@@ -19,8 +19,10 @@ import (
 	"bytes"
 	"compress/flate"
 	"compress/gzip"
+	"compress/zlib"
 	"encoding/binary"
 	"fmt"
+	"io"
 	"io/ioutil"
 	"net/url"
 	"strings"
@@ -139,6 +141,8 @@ type adapter struct {
 	state      dataState
 	compressed bool
 	length     uint32
+	// zlibWrapped indicates that the last deflate message came in the zlib container.
+	zlibWrapped bool
 }
 
 func (a *adapter) Header(
@@ -244,7 +248,7 @@ func (a *adapter) Data(data []byte, streamEnded bool) error {
 					}
 				case Deflate:
 					var err error
-					data, err = deflate(data)
+					data, a.zlibWrapped, err = inflate(data)
 					if err != nil {
 						return fmt.Errorf("deflating data: %w", err)
 					}
@@ -336,7 +340,13 @@ func (e *emitter) Message(data []byte, streamEnded bool) error {
 			data = buf.Bytes()
 		case Deflate:
 			var buf bytes.Buffer
-			w, _ := flate.NewWriter(&buf, -1)
+			// The message leaves in the container it arrived in.
+			var w io.WriteCloser
+			if e.adapter.zlibWrapped {
+				w = zlib.NewWriter(&buf)
+			} else {
+				w, _ = flate.NewWriter(&buf, -1)
+			}
 			if _, err := w.Write(data); err != nil {
 				return fmt.Errorf("flate compressing message data: %w", err)
 			}
@@ -375,6 +385,22 @@ func gunzip(data []byte) ([]byte, error) {
 		return nil, err
 	}
 	return ioutil.ReadAll(r)
+}
+
+// inflate decompresses a "deflate" message. gRPC implementations that offer this encoding (gRPC
+// Core and the languages built on it) send the zlib container of RFC 1950, as HTTP does for
+// "deflate"; a bare RFC 1951 stream is accepted as well. It reports which of the two it was.
+func inflate(data []byte) (_ []byte, zlibWrapped bool, _ error) {
+	// CMF/FLG of RFC 1950: compression method 8 and a header that is a multiple of 31.
+	if len(data) >= 2 && data[0]&0x0f == 8 && (uint16(data[0])<<8|uint16(data[1]))%31 == 0 {
+		if r, err := zlib.NewReader(bytes.NewReader(data)); err == nil {
+			if out, err := ioutil.ReadAll(r); err == nil {
+				return out, true, nil
+			}
+		}
+	}
+	out, err := deflate(data)
+	return out, false, err
 }
 
 func deflate(data []byte) (_ []byte, rerr error) {
